@@ -393,3 +393,11 @@ func (d *Driver) WaitWatchers(timeout time.Duration) bool {
 		return closed >= deletes
 	})
 }
+
+// GrantWhenPaused waits for the read loop to pause (it pauses before every
+// invocation in Manual mode) and grants one invocation.
+func (d *Driver) GrantWhenPaused(timeout time.Duration) bool {
+	ok := d.W.WaitUntil(timeout, func() bool { return d.W.readerState == "paused" || d.W.readerState == "done" })
+	d.GrantIfPaused()
+	return ok
+}
